@@ -77,10 +77,17 @@ func RuleList(rng *rand.Rand, t reflect.Type, max int, id string, style int, all
 		if allowUnknown && rng.Intn(25) == 0 {
 			r = fmt.Sprintf("nosuch_%s_%d", id, i) // unique per instance: identical clauses would be ambiguous to order
 		} else if style == MsgUnique || (style == MsgMixed && rng.Intn(3) != 0) {
-			if rng.Intn(3) == 0 {
+			switch {
+			case style == MsgMixed && rng.Intn(12) == 0:
+				// a one-byte message (the shortest a rule can carry)
+				r += "|" + string("xyzQ!?7"[rng.Intn(7)])
+			case rng.Intn(3) == 0:
 				r += fmt.Sprintf("|必_%s_%d", id, i)
-			} else {
+			default:
 				r += fmt.Sprintf("|m_%s_%d", id, i)
+			}
+			if rng.Intn(10) == 0 {
+				r += "|again" // a message may itself contain the message separator: only the first one separates
 			}
 		}
 		items = append(items, r)
